@@ -97,6 +97,20 @@ CLAIMED = {
         technique="symbolic execution (CrossHair/z3) of real decoder on symbolic bytes vs arithmetic oracle",
         ref="3/C07",
     ),
+    "C08": dict(
+        text="Symbolic execution of the real iterate_fields_with_offsets / enumerate_elements_with_offsets with a SYMBOLIC base "
+        "offset set {8*q + r} (q unbounded, r in 0..7 scaffolding) and two-element bases {8*q1+r1, 8*q2+r2}: every field is "
+        "yielded once, in order, and its offset's min, max and residues mod 8/16/32/64 equal the Specification layout "
+        "oracle's start positions shifted by 8*q; exact expanded-set equality on 8 concrete single- and multi-valued bases "
+        "per shape. `_offset_` is captured through the real reader before every field / after the last one of structures, "
+        "at every position of unions (earlier use must be rejected), and at one choice position per section of services; "
+        "T._bit_length_ and T._extent_ of a dependency equal the API values and the oracle.",
+        note="Shapes are scaffolding (8 offset-specific shapes, the shared catalogue, seeded random shapes); shapes with "
+        "nested variable-length members do not exhaust with a symbolic base (reported PARTIAL) and are decided on concrete "
+        "bases only. `_offset_` conditions are concrete text run natively (choice-exhaustive).",
+        technique="symbolic execution (CrossHair/z3) of real offset iteration on symbolic base offsets vs layout oracle",
+        ref="3/C08",
+    ),
     "C11": dict(
         text="Symbolic execution of the real cross-definition checks on real Structure/Delimited/Service objects: "
         "majors, minors, port-IDs (present/absent) and extents are symbolic over their whole legal ranges; accepted "
